@@ -106,7 +106,7 @@ def main():
     m = re.search(r'max_\s*=\s*max\(-(?:int\()?arr\.min\(initial=0\)\)?,\s*\+?(?:int\()?arr\.max\(initial=0\)\)?\)', sa)
     if not m:
         die('_sample_array: max_ not recognised')
-    # the `except StopIteration` branch: plain ValueError, or (fix of D60) int64 arrays keep their type
+    # the `except StopIteration` branch: plain ValueError, or (fix of D-r7b1) int64 arrays keep their type
     m = re.search(r'except StopIteration:\s*\n(.*?)\n\s*\n', sa, re.S)
     if not m:
         die('_sample_array: except branch not recognised')
